@@ -1297,6 +1297,12 @@ func checkC19(rc *RunCtx, in *minInst, r *minRun, nTasks int) *Violation {
 		case math.IsInf(log.minValue(), 1):
 			// no evaluation so far returned a finite value or -Inf
 			situation = "/all-evaluations-non-finite"
+			if !math.IsInf(res.F, 1) {
+				// the known finding is the method's placeholder best value
+				// (+Inf, with whatever X the location held) being
+				// announced; any other F is something else
+				situation = "/all-evaluations-non-finite/not-the-placeholder"
+			}
 		case in.method == mCmaEs && log.nFunc < r.pop:
 			situation = "/cmaes-first-generation"
 		}
